@@ -3588,8 +3588,10 @@ class SetInstance(object):
             except:
                 for undo_func in reversed(undo_funcs): undo_func()
                 raise
-        # for a one-to-many collection the reverse calls above have removed the items (and counted them) already
-        if setdata.count is not None: setdata.count -= len(items & setdata)
+        # for a one-to-many collection the reverse calls above have removed the items already, through reverse_remove(),
+        # which has also done all the bookkeeping (count, added, removed): only what is still in setdata is handled here
+        items &= setdata
+        if setdata.count is not None: setdata.count -= len(items)
         setdata -= items
         added = setdata.added
         removed = setdata.removed
